@@ -414,6 +414,7 @@ tdigest<T, A> tdigest<T, A>::deserialize(std::istream& is, const A& allocator) {
   const T min = read<T>(is);
   const T max = read<T>(is);
   if (!is.good()) throw std::runtime_error("error reading from std::istream");
+  check_counts(k, num_centroids, num_buffered);
   vector_centroid centroids(num_centroids, centroid(0, 0), allocator);
   if (num_centroids > 0) read(is, centroids.data(), num_centroids * sizeof(centroid));
   vector_t buffer(num_buffered, 0, allocator);
@@ -466,6 +467,7 @@ tdigest<T, A> tdigest<T, A>::deserialize(const void* bytes, size_t size, const A
   ptr += copy_from_mem(ptr, num_centroids);
   uint32_t num_buffered;
   ptr += copy_from_mem(ptr, num_buffered);
+  check_counts(k, num_centroids, num_buffered);
 
   ensure_minimum_memory(end_ptr - ptr, sizeof(T) * 2 + sizeof(centroid) * num_centroids + sizeof(T) * num_buffered);
   T min;
@@ -625,6 +627,20 @@ buffer_(std::move(buffer))
   centroids_capacity_ = 2 * k_ + fudge;
   centroids_.reserve(centroids_capacity_);
   buffer_.reserve(centroids_capacity_ * BUFFER_MULTIPLIER);
+}
+
+template<typename T, typename A>
+void tdigest<T, A>::check_counts(uint16_t k, uint32_t num_centroids, uint32_t num_buffered) {
+  if (k < 10) throw std::invalid_argument("k must be at least 10");
+  const size_t centroids_capacity = 2 * static_cast<size_t>(k) + (k < 30 ? 30 : 10); // same as in the constructor
+  if (num_centroids > centroids_capacity) {
+    throw std::invalid_argument("possible corruption: number of centroids " + std::to_string(num_centroids)
+        + " exceeds capacity " + std::to_string(centroids_capacity));
+  }
+  if (num_buffered > centroids_capacity * BUFFER_MULTIPLIER) {
+    throw std::invalid_argument("possible corruption: number of buffered values " + std::to_string(num_buffered)
+        + " exceeds capacity " + std::to_string(centroids_capacity * BUFFER_MULTIPLIER));
+  }
 }
 
 template<typename T, typename A>
